@@ -17,7 +17,7 @@ RULE_TEXT = ('profiles from G1-G4, G6, G10 and G8 (equal ranks, meek/warren) x a
              'some multiplier > 1; distinct = (structure, configuration, variant text) hashes')
 ASSUMPTIONS = ['the two presentations denote the same multiset of ballots by construction (the variant generator only permutes, splits, merges and re-lays-out)']
 MIN_COUNTERS = {'pairs_compared': 300, 'pairs_with_split_or_merge': 100, 'pairs_with_nicknames': 50, 'pairs_with_comments': 50}
-WEIGHTS = dict(G1=4, G2=2, G3=2, G4=4, G6=1, G10=1)
+WEIGHTS = dict(G1=4, G2=2, G3=2, G4=4, G4b=2, G6=1, G10=1)
 ANCHOR_FILES = ['droop/profile.py', 'droop/election.py']
 
 
